@@ -12,7 +12,9 @@ RULE = ("histories of add_interaction/add_interactions_from/add_path/add_star/ad
         "argument orders, unknown nodes, every t in [min-1,max+1] plus two far instants are compared with the "
         "union of added spans. EX1 = all histories over one pair (both endpoint orders, t<=4, e in "
         "{None,t+1,t+2,t+3}) up to the tier's length on both classes; EX2 = two pairs sharing a node + self-loop; "
-        "RND = random histories biased to every relative-position class; STRESS = long histories. A case is "
+        "RND = random histories biased to every relative-position class; STRESS = long histories; PASSIVE = the "
+        "repository's own tests run in-process under a probe on add_interaction, every graph they build audited at "
+        "test end. A case is "
         "non-trivial when the final model state has at least one interaction; distinct = distinct (canonical "
         "model state, last op kind).")
 MIN = {"quick": {"has_interaction(u,v,t)": 100000, "add_interaction:outcome": 20000},
@@ -34,13 +36,26 @@ def battery(ctx, dn, G, m):
     audit.audit_presence(ctx, dn, G, m)
 
 
+def passive_battery(ctx, dn, G, m):
+    # graphs built by the repository's own tests (removal-enabled ones; accumulative ones belong to C08)
+    if m.removal:
+        battery(ctx, dn, G, m)
+
+
 def run(ctx, dn):
+    if ctx.shard == 0:
+        from .. import passive
+        ctx.notes["passive_graphs"] = passive.run(ctx, dn, passive_battery)
     if ctx.tier == "quick":
         _hist.exhaustive(ctx, dn, battery, 2, two_pairs_len=2)
-        _hist.random_histories(ctx, dn, battery, until=3)
+        _hist.second_life(ctx, dn, battery, 6)
+        _hist.long_timelines(ctx, dn, battery, 4)
+        _hist.random_histories(ctx, dn, battery, until=3, clears=True)
         _hist.stress(ctx, dn, battery, 1500, every=100)
     else:
         _hist.exhaustive(ctx, dn, battery, 3, two_pairs_len=3)
-        _hist.random_histories(ctx, dn, battery, until=25)
+        _hist.second_life(ctx, dn, battery, 60)
+        _hist.long_timelines(ctx, dn, battery, 40)
+        _hist.random_histories(ctx, dn, battery, until=25, clears=True)
         for _ in range(3):
             _hist.stress(ctx, dn, battery, 6000, every=200)
